@@ -56,7 +56,7 @@ def strategy(tier):
                                        "spancondition"):
                 return case
             if kind == "dismax":
-                return dict(case, query={"op": "dismax", "qs": [case["query"], other], "tiebreak": 0.0})
+                return dict(case, query={"op": "dismax", "qs": [case["query"], other], "tiebreak": [0.0, 0.4][len(extra) % 2]})
             if kind == "inter3":
                 # a nested intersection: three clauses over frequent terms
                 third = {"op": "term", "f": "t", "x": WORDS_BY_FREQUENCY[(len(extra) + 1) % len(WORDS_BY_FREQUENCY)], "boost": 1.0}
